@@ -22,3 +22,14 @@ Theorem C02_driver_infeasible_sound :
 Proof. exact driver_infeasible_sound. Qed.
 Print Assumptions C02_driver_infeasible_sound.
 
+
+Theorem C02_driver_user_infeasible :
+  forall M U float_solve basis_status ebasis max_iter a,
+    let r := exact_solver M (to_internal M U) (un U) float_solve basis_status ebasis max_iter a in
+    r_rval r = false -> r_status r = StInfeasible -> uinfeasible M U.
+Proof.
+  intros M U fs bs eb mi a r H1 H2.
+  destruct (driver_infeasible_sound M (to_internal M U) (un U) fs bs eb mi a H1 H2) as (y & _ & T).
+  apply user_infeasible. exact (infeas_test_sound M _ y (to_internal_wf M U) T).
+Qed.
+Print Assumptions C02_driver_user_infeasible.
